@@ -1466,6 +1466,10 @@ for _fam, _tn, _note in (
     ('G-aan', 'addasname', '`as _exc` added to every handler that binds nothing'),
     ('G-msp', 'maxsizepos', '`Queue(maxsize=n)` written as `Queue(n)`'),
     ('G-msk', 'maxsizekw', '`Queue(n)` written as `Queue(maxsize=n)`'),
+    ('G-agl', 'argslist', '`args=(a, b)` of a call written as `args=[a, b]`'),
+    ('G-yfl', 'yf2loop', '`yield from X` written as a loop that yields each element'),
+    ('G-sup', 'suppress', '`try: B` / `except E: pass` written as `with contextlib.suppress(E): B` (ruff SIM105)'),
+    ('G-emc', 'emptyctor', '`[]` / `{}` written as `list()` / `dict()`'),
     ('G-dmn', 'daemonattr', '`Thread(..., daemon=True)` written as construction plus `t.daemon = True`'),
 ):
     for _i, _m in enumerate(_MODS + [FU]):
